@@ -5,3 +5,5 @@ import WowVerif.Props.C14
 #print axioms Wv.Adt.mcin_entry_points_at_mcnk
 #print axioms Wv.Adt.mcin_length
 #print axioms Wv.Adt.mcnk_offset_points_at_named
+#print axioms Wv.Adt.water_offsets_tile
+#print axioms Wv.Adt.water_entry_fields
